@@ -1,10 +1,12 @@
 //! Conformance driver for C17 (orderly shutdown in any order leaves nothing behind).
 //!
-//!   run   --plan <plan.ndjson> --root <dir> --tag <prefix> --out <trace.ndjson> [--jobs n]
+//!   run   --plan <plan.ndjson> --root <dir> --tag <prefix> --out <trace.ndjson> [--jobs n] [--batch k]
 //!         executes every line {"pat":…,"var":…,"order":[{"o":…,"how":…},…]} of the plan in a CHILD
-//!         PROCESS of its own (isolated domain: prefix <tag><index>_ and root <dir>/<index>), with a
-//!         watchdog; a panic, abort or hang of the child is recorded as data in the `end` record.
-//!   child --pat <pattern> --var <variant> --order o:how,o:how,… --root <dir> --tag <prefix>
+//!         PROCESS (k orders per child, one after the other, each in an isolated domain: prefix
+//!         <tag><index>_ and root <dir>/<index>) with a watchdog; a panic, abort or hang of the child
+//!         is data of the order in progress (`end` record), the orders not yet started are re-run in
+//!         a fresh child (see parent.rs).
+//!   child --batch <file> | --pat <pattern> --var <variant> --order o:how,… --root <dir> --tag <prefix>
 //!         builds the object graph on the real API, drops the objects in the given order, uses
 //!         every survivor after each drop and prints one ndjson record per observation.
 //!
